@@ -81,6 +81,22 @@ def gen_history(seed):
                 ops.append(["deepcopy"])
             else:
                 ops.append(["remove_all"])
+    if mode == "W":
+        # a worker may declare one instance of a type without an id (`any`): requests that name a specific id
+        # of that type are then served by it (Resource equality treats `any` as a wildcard on either side)
+        ra = random.Random(f"{seed}:c04:anyid")
+        for v in vecs:
+            if ra.random() < 0.25:
+                t = ra.choice(sorted({x[0] for x in v}))
+                # the type becomes one id-less instance holding the type's whole quantity (an id-less instance
+                # next to named ones of the same type makes per-instance occupancy ambiguous: `any` also
+                # matches the named ids when a copy re-applies the allocations)
+                q = sum(x[2] for x in v if x[0] == t)
+                k = [j for j, x in enumerate(v) if x[0] == t][0]
+                v[:] = [x for j, x in enumerate(v) if x[0] != t or j == k]
+                for x in v:
+                    if x[0] == t:
+                        x[1], x[2] = "any", q
     return {"seed": seed, "mode": mode, "vecs": vecs, "strategies": strategies, "ops": ops}
 
 
@@ -450,6 +466,9 @@ def _run_W(case):
         if not where and not loaded:
             for wi, w in enumerate(ws):
                 for t, i, q in vecs[wi]:
+                    if i == "any" or any(tt == t and ii == "any" for tt, ii, _ in vecs[wi]):
+                        # an id-less instance answers for the whole type
+                        i, q = "any", sum(qq for tt, _, qq in vecs[wi] if tt == t)
                     if w.resources.get_available_quantity(Resource(name=t, _id=i)) != q:
                         V.vio("empty_not_full_capacity", f"{tag}: nothing resident but {w.name} {t}:{i} not full",
                               {})
@@ -611,6 +630,8 @@ def _run_W(case):
                 dc = deepcopy(pool)
                 for wi, w in enumerate(dc.workers):
                     for t, i, q in vecs[wi]:
+                        if i == "any" or any(tt == t and ii == "any" for tt, ii, _ in vecs[wi]):
+                            i, q = "any", sum(qq for tt, _, qq in vecs[wi] if tt == t)
                         if w.resources.get_available_quantity(Resource(name=t, _id=i)) != q:
                             V.vio("deepcopy_not_empty", f"deepcopy(pool): {w.name} {t}:{i} not at full capacity")
                     if w.get_placed_tasks():
